@@ -16,6 +16,9 @@ CLAIMED = {
  "C04": ("§7 C04", "Every output the real Writers produce for the C01 alphabet is judged only by independent decoders (strict binary validator / text grammar parser + symbol context machine), and every integer codec is enumerated over 0..2^16 and all 2^k±2 with length-function/bytes agreement.",
          "Trusts refbin, reftext and refsym; ion-go's Reader is never consulted.",
          "exhaustive enumeration of writer inputs and codec arguments on the implementation, outputs validated by an independent reference decoder"),
+ "C08": ("§7 C08", "Bounded exhaustive exploration of navigation programs on the real text and binary Readers: every program that departs from the plain full traversal in at most d steps (skip, early step-out, refused calls, wrong/right accessors, calls past the end), combined with one spelling/encoding deviation, plus every program of bounded length over the 4-op alphabet on small documents; after every step all observations are compared with a reference cursor over the forest the same Reader produced in its own plain traversal.",
+         "Differential oracle: value-decoding defects are C02/C03's concern; programs with more than d deviations and longer free programs are not covered.",
+         "deviation-bounded enumeration of call sequences (navigation programs) on the implementation, lock-step with a reference cursor"),
  "C09": ("§7 C09", "Every import list (each table adjusted to every max_id) x every local symbol list of a small alphabet, built three ways (constructor, Reader with catalogs incl. placeholders, builder under every Add sequence), with a complete query sweep (every ID 0..MaxID+2, every text) compared with a reference slot list; earlier answers re-asked after every Add.",
          "Trusts refsym's 40-line slot list; tables larger than the pool and more imports than the bound are not covered.",
          "explicit enumeration of configurations and operation sequences on the implementation vs a reference model, step by step"),
